@@ -35,64 +35,99 @@ func Mix(seed uint64, name string, idx uint64) uint64 {
 	return r.next()
 }
 
-// Tape is the single source of choices in a run.
+// Tape is the single source of choices in a run. It has two independent
+// streams: stream 0 carries workload, fault, chunking and map-order choices,
+// stream 1 the scheduler's choices. Keeping them apart means that a different
+// schedule does not shift the workload draws (used by the fault enumeration,
+// which replays one scenario under several schedules) and that minimisation
+// can shrink the schedule without disturbing the scenario.
 type Tape struct {
+	st [2]stream
+	// Draws counts all draws of both streams (including those past the end in replay mode).
+	Draws int
+}
+
+type stream struct {
 	vals   []uint32
 	pos    int
 	replay bool
 	r      rng
-	// Draws counts all draws (including those past the end in replay mode).
-	Draws int
-	// strict makes replay panic on a label mismatch (debug aid).
-	labels []string
-	keepLabels bool
 }
 
 // NewTape returns a recording tape seeded with seed.
-func NewTape(seed uint64) *Tape { return &Tape{r: rng{seed}} }
-
-// ReplayTape returns a tape that replays vals (value mod n; 0 once exhausted).
-func ReplayTape(vals []uint32) *Tape {
-	return &Tape{vals: append([]uint32(nil), vals...), replay: true}
+func NewTape(seed uint64) *Tape {
+	t := &Tape{}
+	t.st[0].r = rng{seed}
+	t.st[1].r = rng{seed ^ 0x5ced5ced5ced5ced}
+	return t
 }
 
-// Values returns the values drawn so far (record mode) or consumed (replay mode).
-func (t *Tape) Values() []uint32 {
-	if t.replay {
-		n := t.pos
-		if n > len(t.vals) {
-			n = len(t.vals)
+// ReplayTape returns a tape that replays vals on stream 0 and nothing (all
+// zeros) on the scheduler stream.
+func ReplayTape(vals []uint32) *Tape { return ReplayTape2(vals, nil) }
+
+// ReplayTape2 replays both streams (value mod n; 0 once exhausted).
+func ReplayTape2(vals, sched []uint32) *Tape {
+	t := &Tape{}
+	t.st[0] = stream{vals: append([]uint32(nil), vals...), replay: true}
+	t.st[1] = stream{vals: append([]uint32(nil), sched...), replay: true}
+	return t
+}
+
+// ReplayWithFreshSchedule replays the workload stream and records a new
+// scheduler stream seeded with salt.
+func ReplayWithFreshSchedule(vals []uint32, salt uint64) *Tape {
+	t := &Tape{}
+	t.st[0] = stream{vals: append([]uint32(nil), vals...), replay: true}
+	t.st[1].r = rng{salt}
+	return t
+}
+
+func (s *stream) values() []uint32 {
+	if s.replay {
+		n := s.pos
+		if n > len(s.vals) {
+			n = len(s.vals)
 		}
-		return append([]uint32(nil), t.vals[:n]...)
+		return append([]uint32(nil), s.vals[:n]...)
 	}
-	return append([]uint32(nil), t.vals...)
+	return append([]uint32(nil), s.vals...)
 }
 
-// Intn returns a choice in [0,n). 0 is by convention the simplest alternative.
-func (t *Tape) Intn(n int, label string) int {
+// Values returns the workload stream drawn so far (record mode) or consumed (replay mode).
+func (t *Tape) Values() []uint32 { return t.st[0].values() }
+
+// SchedValues is Values for the scheduler stream.
+func (t *Tape) SchedValues() []uint32 { return t.st[1].values() }
+
+func (t *Tape) draw(si int, n int, label string) int {
 	if n <= 0 {
 		panic(fmt.Sprintf("verifsim: Intn(%d) at %s", n, label))
 	}
 	t.Draws++
-	if t.keepLabels {
-		t.labels = append(t.labels, label)
-	}
-	if t.replay {
+	s := &t.st[si]
+	if s.replay {
 		var v uint32
-		if t.pos < len(t.vals) {
-			v = t.vals[t.pos]
+		if s.pos < len(s.vals) {
+			v = s.vals[s.pos]
 		}
-		t.pos++
+		s.pos++
 		return int(v % uint32(n))
 	}
 	if n == 1 {
-		t.vals = append(t.vals, 0)
+		s.vals = append(s.vals, 0)
 		return 0
 	}
-	v := uint32(t.r.next() % uint64(n))
-	t.vals = append(t.vals, v)
+	v := uint32(s.r.next() % uint64(n))
+	s.vals = append(s.vals, v)
 	return int(v)
 }
+
+// Intn returns a choice in [0,n) from the workload stream. 0 is by convention the simplest alternative.
+func (t *Tape) Intn(n int, label string) int { return t.draw(0, n, label) }
+
+// SchedIntn is Intn on the scheduler stream.
+func (t *Tape) SchedIntn(n int, label string) int { return t.draw(1, n, label) }
 
 // Bool draws a fair coin (false is the simple alternative).
 func (t *Tape) Bool(label string) bool { return t.Intn(2, label) == 1 }
